@@ -18,7 +18,10 @@ META = {
         "(7) R-FINI: every transport error handler reaches buffered_socket_close() on every path; http_parser is compiled in strict mode "
         "(request-line and header syntax is delegated to it); "
         "(5) R-ORDER: callbacks taken from a url_handler are installed into the parser settings only on paths where the handler "
-        "has no create() hook or where create() has been called and did not fail (they work on the object create() makes)."),
+        "has no create() hook or where create() has been called and did not fail (they work on the object create() makes); "
+        "(8) what counts as a valid upgrade is decided by the handshake rules shared with C12 (C12.5: the 101 is gated by method, "
+        "HTTP version - evaluated as a table over (major, minor) -, Upgrade flag, and a record of its own for each of the two required "
+        "headers); everything else takes the error exit whose release discipline clauses 1, 3 and 7 decide."),
     "not_decided": "http_parser's own parsing; memory of connections that never send a complete line (read buffer bounds: C09)",
     "assumptions": ["http_parser invokes only the callbacks installed in the connection's parser_settings"],
 }
@@ -346,3 +349,5 @@ def run(ctx):
         clause6_target(ctx, P)
         clause7_error_handlers(ctx, P, cg)
         clause8_accepted_fd(ctx, P, cg)
+        from .c12 import clause5_handshake
+        clause5_handshake(ctx, P, cg)
